@@ -97,3 +97,19 @@ _add(
     deciding={"any": {"token_sequences": 200, "level_ordering_chains": 100, "long_chains": 3, "deep_nestings": 2, "with_then": 50, "with_and": 50, "with_or": 50, "with_xor": 50}},
     headline=["token_sequences", "level_ordering_chains", "long_chains", "deep_nestings", "nontrivial_strings"],
 )
+
+_add(
+    "C02",
+    shards=(4, 14),
+    timeout=(900, 5400),
+    title="accepted language / SyntaxError for everything else",
+    rule=(
+        "hostile strings: well-formed condition and AHB expressions, near-misses (1-3 character edits: delete, insert, replace, transpose, "
+        "duplicate over the token alphabet or a garbage alphabet with NUL, surrogates, non-ASCII digits, NBSP, VT, long s, Kelvin sign, "
+        "look-alike letters), garbage, and a fixed list of structural edge cases; each string goes to the condition parser, the AHB parser, the "
+        "combined resolver and (if malformed) is_valid_expression. Oracle: three-valued hand-written recogniser (accept / reject / unspecified) "
+        "and an exception-type monitor (only SyntaxError may escape). distinct non-trivial = distinct strings not rejected at the first character"
+    ),
+    deciding={"any": {"strings": 2000, "condition-parser:accepted:ACCEPT": 200, "condition-parser:rejected:REJECT": 500, "resolver:accepted:ACCEPT": 300, "resolver:rejected:REJECT": 500, "is_valid_expression_on_malformed": 300}},
+    headline=["strings", "nontrivial_strings", "is_valid_expression_on_malformed"],
+)
